@@ -54,7 +54,17 @@ def reflect_world(w, seqs):
             r2["clip_left"] = syn.revcomp(r["clip_right"])
         if r.get("clip_left"):
             r2["clip_right"] = syn.revcomp(r["clip_left"])
-        assert not r.get("edits")
+        nb = len(r["blocks"])
+        if r.get("edits"):
+            # [block, offset from the block start in reference bases, kind, length]: deletions / mismatches cover ln reference bases,
+            # an insertion sits between two reference bases
+            ed2 = []
+            for bi, off, kind, ln in r["edits"]:
+                blen = r["blocks"][bi][1] - r["blocks"][bi][0] + 1
+                ed2.append([nb - 1 - bi, blen - off - (0 if kind == "I" else ln), kind, ln])
+            r2["edits"] = ed2
+        if r.get("block_seq"):
+            r2["block_seq"] = {nb - 1 - int(bi): syn.revcomp(sq) for bi, sq in r["block_seq"].items()}
         w2["reads"].append(r2)
     seqs2 = {c: syn.revcomp(s) for c, s in seqs.items()}
     return w2, seqs2
@@ -250,6 +260,15 @@ def case(args):
         w, tag = assignment_world(param)
         extra = ["--no_model_construction"]
         models = False
+    elif kind == "noise":
+        # C14's noise family (misaligned / fake / retained features next to every exon of a 7-exon isoform): the corrected
+        # alignments of the mirrored input must be the mirror image of the corrected alignments
+        from props import c14
+        strategy, preset = param
+        w, _ = c14.noise_world(c14.PRESETS[preset], 1)
+        tag = "noise-%s-%s" % (strategy, preset)
+        extra = ["--no_model_construction", "--matching_strategy", preset, "--splice_correction_strategy", strategy]
+        models = False
     else:
         w, tag = model_world(param)
         extra = ["--model_construction_strategy", "all"]
@@ -307,6 +326,11 @@ def run(ctx):
     for sc in scen:
         for tr in list(shifts) + ["reflect"]:
             jobs.append(("mix", sc, tr, ctx.scratch))
+    from props import c14
+    for strategy in (("default_ont", "all") if quick else sorted(c14.STRATEGIES)):
+        for preset in (("default",) if quick else sorted(c14.PRESETS)):
+            for tr in (["reflect", 257] if quick else list(shifts) + ["reflect"]):
+                jobs.append(("noise", (strategy, preset), tr, ctx.scratch))
     ctx.rng.shuffle(jobs)
     nreads = 0
     for key, errs, n in core.pmap(case, jobs, chunksize=2):
